@@ -43,6 +43,7 @@ def shards(tier, seed):
         for i in range(2 if q else 10):
             out.append({"name": f"{t}:{i}", "type": t, "cultures": 5 if q else 16, "gen_patterns": 25 if q else 80, "mutants": 30 if q else 80})
     out.append({"name": "malformed-patterns", "type": "malformed"})
+    out.append({"name": "calendar-template-edges", "type": "edges"})
     return out
 
 
@@ -230,9 +231,71 @@ def run_malformed(ctx):
     ctx.counters.setdefault("parses", 0)
 
 
+def run_edges(ctx):
+    """Targeted hostile inputs: calendar ids read from the text against templates of other calendars, year/day fields at and
+    beyond every calendar's range, hour 24 on the last day, month 13+ templates."""
+    from pyoda_time import LocalDate
+    from pyoda_time._compatibility._culture_info import CultureInfo
+    from vf import gen, textgen as G
+    rng = ctx.rng
+    inv = CultureInfo.invariant_culture
+    cals = list(gen.calendars())
+    LD = G.pattern_class("LocalDate"); LDT = G.pattern_class("LocalDateTime"); INST = G.pattern_class("Instant")
+    templates = [None]
+    for cal in cals:
+        lo, hi = gen.cal_range(cal.id)
+        templates += [gen.date_of(lo, cal), gen.date_of(hi, cal)]
+        y = rng.randint(cal.min_year, cal.max_year); m = cal.get_months_in_year(y)
+        templates.append(LocalDate(y, m, cal.get_days_in_month(y, m), cal))
+    date_pats = ["c MM-dd", "c dd", "c uuuu", "c uuuu-MM-dd", "c MM", "uuuu-MM-dd c", "c M d", "c uuuu MMMM d", "c ddd", "MM-dd", "dd", "uuuu", "yyyy-MM-dd", "yy-MM-dd", "yyyy g", "MMMM d", "dddd"]
+    for pt in date_pats:
+        p0 = judge_create(ctx, "LocalDate", LD, pt, inv, "edges")
+        if p0 is None: continue
+        for tv in rng.sample(templates, 14) + [None]:
+            p = p0
+            if tv is not None:
+                try:
+                    p = p0.with_template_value(tv)
+                except Exception as e:  # noqa: BLE001   (not create/parse: recorded, not judged)
+                    ctx.exc(e); continue
+            texts = set()
+            for cal in cals:
+                y1, y2 = cal.min_year, cal.max_year
+                for y in (y1, y2, y1 - 1, y2 + 1, 2000, 1, 9999, -9998, -9999):
+                    for md in ("01-01", "13-01", "12-30", "19-19", "02-30", "06-31"):
+                        mm, dd = md.split("-")
+                        texts.add(pt.replace("c", cal.id).replace("uuuu", str(y)).replace("yyyy", str(abs(y))).replace("yy", str(abs(y) % 100).rjust(2, "0")).replace("MMMM", "January")
+                                  .replace("MM", mm).replace("dddd", "Monday").replace("ddd", "Mon").replace("dd", dd).replace("M", str(int(mm))).replace("d", str(int(dd))).replace("g", "A.D."))
+            for t in rng.sample(sorted(texts), min(len(texts), 160)):
+                judge_parse(ctx, "LocalDate", p, pt, "", t, "calendar-template-edge")
+    for pt in ("uuuu-MM-dd HH:mm:ss", "uuuu-MM-dd'T'HH:mm", "c uuuu-MM-dd HH:mm", "ld<uuuu-MM-dd> lt<HH:mm:ss>", "o", "r"):
+        p0 = judge_create(ctx, "LocalDateTime", LDT, pt, inv, "edges")
+        if p0 is None: continue
+        for cal in cals:
+            lo, hi = gen.cal_range(cal.id)
+            for d in (hi, lo, hi - 1):
+                x = gen.date_of(d, cal)
+                try:
+                    p = p0 if "c" in pt.replace("'T'", "") else p0.with_template_value(x.at_midnight())
+                    base = p.format(x.at_midnight())
+                except Exception as e:  # noqa: BLE001
+                    ctx.exc(e); continue
+                for a, b in (("00:00:00", "24:00:00"), ("00:00", "24:00"), ("00:00:00", "24:00:01"), ("00:00", "23:60"), ("T00:00:00", "T24:00:00")):
+                    if a in base:
+                        judge_parse(ctx, "LocalDateTime", p, pt, "", base.replace(a, b), "hour-24-edge")
+    for pt in ("g", "uuuu-MM-dd'T'HH:mm:ss'Z'"):
+        p = judge_create(ctx, "Instant", INST, pt, inv, "edges")
+        if p is None: continue
+        for t in ("9999-12-31T24:00:00Z", "-9998-01-01T00:00:00Z", "-9999-12-31T24:00:00Z", "9999-12-31T23:59:60Z", "10000-01-01T00:00:00Z"):
+            judge_parse(ctx, "Instant", p, pt, "", t, "hour-24-edge")
+    ctx.sample({"edges": ["c MM-dd with 'Badi 01-01'", "9999-12-31 24:00:00", "templates in every calendar incl. last month of a year"]})
+
+
 def run(ctx, shard):
     for k in REQUIRED["any"]:
         ctx.counters.setdefault(k, 0)
+    if shard["type"] == "edges":
+        run_edges(ctx); return
     if shard["type"] == "malformed":
         run_malformed(ctx)
         # make sure accessor monitors are exercised in this shard as well
